@@ -120,9 +120,25 @@ def run_task(task):
     # (the enumerations are cheap and are run in both tiers, so that listed known findings they exercise are reported every run)
     if task.enumerate is not None:
         try:
-            en = task.enumerate(int(os.environ.get("VERIF_SEED", "0") or 0))
             import json
-            res["enumeration"] = json.loads(json.dumps(en, default=repr))  # plain data only: the result crosses a process boundary and goes into the evidence
+            seed0 = int(os.environ.get("VERIF_SEED", "0") or 0)
+            t_en = time.time()
+            en = json.loads(json.dumps(task.enumerate(seed0), default=repr))  # plain data only: the result crosses a process boundary and goes into the evidence
+            first = time.time() - t_en
+            # thorough tier: the seeded part of every enumeration is repeated with further seeds within a time budget
+            budget = float(os.environ.get("PYVC_THOROUGH_ENUM_S", "90"))
+            extra = 0
+            if os.environ.get("VERIF_TIER") == "thorough" and not en.get("failures") and first < budget / 3:
+                while time.time() - t_en + first < budget and extra < 400 and not en["failures"]:
+                    extra += 1
+                    en2 = json.loads(json.dumps(task.enumerate(seed0 * 1000 + 7919 * extra), default=repr))
+                    en["cases"] = en.get("cases", 0) + en2.get("cases", 0)
+                    en["failures"] = en.get("failures", []) + en2.get("failures", [])
+                    if en2.get("error"):
+                        en["error"] = en2["error"]
+                        break
+                en["bound"] = str(en.get("bound", "")) + f"; thorough tier: the whole enumeration repeated with {extra} further seeds"
+            res["enumeration"] = en
         except Exception as e:
             res["enumeration"] = {"name": task.name + ".bounded_enumeration", "bound": "crashed", "cases": 0, "failures": [],
                                   "error": f"{type(e).__name__}: {e}\n{traceback.format_exc(limit=6)}"}
